@@ -71,7 +71,7 @@ pub fn spec(id: &str) -> Option<PropSpec> {
         "C08" => PropSpec {
             id: "C08",
             weights: vec![(Create, 26), (Destroy, 34), (Preset, 8), (Burst, 4), (Refill, 6), (IterDestroy, 8), (XIterDestroy, 3), (CloneWorld, 3), (DestroyDirect, 3), (DropWorld, 1), (Mint, 2), (Probe, 1)],
-            any_of: vec!["slot_reused_ge3", "overflow_panic", "wrap_reuse"],
+            any_of: vec!["slot_reused_ge3", "overflow_panic", "wrap_reuse", "generation_wrapped"],
             all_of: vec![],
             rule: "history with heavy slot recycling, optionally starting from generations preset next to u32::MAX; non-trivial = some slot was reused >= 3 times or the history crossed the overflow boundary",
         },
@@ -116,6 +116,20 @@ pub fn spec(id: &str) -> Option<PropSpec> {
             any_of: vec!["reuse_depth_ge2"],
             all_of: vec![],
             rule: "history part of C14: every handle returned by a create call must carry the ARCHETYPE_ID of the archetype that created it; non-trivial = slot reuse of depth >= 2",
+        },
+        "C19F" => PropSpec {
+            id: "C19",
+            weights: vec![(Create, 20), (Forge, 40), (Destroy, 18), (Burst, 6), (Refill, 4), (CloneWorld, 3), (IterDestroy, 3), (Mint, 3), (DestroyDirect, 2), (DropWorld, 1)],
+            any_of: vec!["forge_dangerous"],
+            all_of: vec![],
+            rule: "forged-handle histories (C03 oracle) under every configuration",
+        },
+        "C19W" => PropSpec {
+            id: "C19",
+            weights: vec![(Create, 26), (Destroy, 34), (Preset, 10), (Burst, 4), (Refill, 6), (IterDestroy, 8), (XIterDestroy, 3), (CloneWorld, 3), (DestroyDirect, 3), (DropWorld, 1), (Mint, 2), (Probe, 1)],
+            any_of: vec!["slot_reused_ge3", "overflow_panic", "wrap_reuse", "generation_wrapped"],
+            all_of: vec![],
+            rule: "boundary-crossing histories (generation presets next to u32::MAX) under the wrapping_version configurations",
         },
         "C03" => PropSpec {
             id: "C03",
@@ -232,6 +246,11 @@ pub fn seeded_config(cases: u32, seed: u64) -> (Config, TestRng) {
 }
 
 /// Generated search for one property over world `W`.
+thread_local! {
+    /// (hash to look for, file to write the case to): used to recover a case from its hash
+    pub static DUMP: std::cell::RefCell<Option<(u64, String)>> = std::cell::RefCell::new(None);
+}
+
 pub fn search<W: WorldDriver>(spec: &PropSpec, cfg: &Cfg, cases: u32, max_len: usize, seed: u64, record_traces: bool, last_case: Option<&str>) -> Search {
     let narch = W::archs().len();
     let strategy = (vec(any::<u8>(), 1 + narch), vec(any::<Rec>(), 0..=max_len));
@@ -240,6 +259,13 @@ pub fn search<W: WorldDriver>(spec: &PropSpec, cfg: &Cfg, cases: u32, max_len: u
     let stats = std::cell::RefCell::new(Stats::default());
     let result = runner.run(&strategy, |(hdr, recs)| {
         let case = make_case::<W>(spec, &hdr, &recs);
+        DUMP.with(|d| {
+            if let Some((h, path)) = d.borrow().as_ref() {
+                if case.hash() == *h {
+                    let _ = std::fs::write(path, case.to_text());
+                }
+            }
+        });
         if let Some(p) = last_case {
             // so that a crash (signal, abort) of this process can be attributed to a case
             let _ = std::fs::write(p, case.to_text());
